@@ -91,3 +91,6 @@ def cases(tier, seed, ctx=None):
     # whole, exactly as over plain TCP
     yield ("tls", [1, b"GET /big HTTP/1.1\r\nHost: h\r\n\r\n", 5], "tls-big-response")
     yield ("tls", [1, b"GET /small HTTP/1.1\r\nHost: h\r\n\r\n", 5], "tls-small-response")
+    # close() called a second time a little later, while a 12 MiB response is still on its way to a client that reads slowly: the
+    # client still receives all of it
+    yield ("tlsraw", [b"GET /bigtwice HTTP/1.1\r\nHost: h\r\n\r\n", 0, 0, [], 1, 0, 6], "tlsraw-close-again-while-flushing")
